@@ -34,6 +34,7 @@ Fresh(rec) ==
   /\ ever' = Ever0(ConvState(rec.st))
   /\ sent' = {} /\ delivered' = {} /\ acked' = {} /\ cb1' = {} /\ cb2' = {}
   /\ evlog' = <<>>
+  /\ frozen' = [c \in Chains |-> {}]
   /\ dig' = rec.dig /\ app' = rec.app
 
 TraceInit ==
@@ -42,6 +43,7 @@ TraceInit ==
   /\ ever = Ever0(ConvState(TraceLog[1].st))
   /\ sent = {} /\ delivered = {} /\ acked = {} /\ cb1 = {} /\ cb2 = {}
   /\ evlog = <<>>
+  /\ frozen = [c \in Chains |-> {}]
   /\ dig = TraceLog[1].dig /\ app = TraceLog[1].app
 
 -------------------------------------------------------------------------------
@@ -94,7 +96,6 @@ V_C03(e, okR, c, r, r2, rec, st2, pred) ==
      {Lbl("C03", "recorded_ack_differs_from_app_result", "") :
         k \in {k \in calls : k[1] = "recv" /\ k[9] = "" /\ <<k[3], k[4], k[5], k[8]>> \notin r2.ak}}
 \cup {Lbl("C03", "empty_ack_recorded", "") : x \in {x \in r2.ak \ r.ak : x[4] = ""}}
-\cup If(e.act = "Ack" /\ pred.ok /\ ~okR /\ e.pkt \in sent, Lbl("C03", "genuine_ack_refused", e.proof.mode))
 
 V_C09(e, okR, c, r, r2, rec, st2) ==
   IF e.act # "Send" THEN {} ELSE
@@ -104,7 +105,7 @@ V_C09(e, okR, c, r, r2, rec, st2) ==
 \cup If(okR /\ r2.cm # r.cm \cup {<<p.src, p.dst, p.seq, CVal(p)>>}, Lbl("C09", "not_exactly_one_commitment", ""))
 \cup If(okR /\ SetOf(rec.sent) # {<<p.src, p.dst, p.seq, p.relay, p.port, p.data>>}, Lbl("C09", "packet_not_announced", ""))
 \cup If(okR /\ [r2 EXCEPT !.ns = r.ns, !.cm = r.cm] # r, Lbl("C09", "send_changed_other_state", ""))
-\cup If(okR /\ ~(p.src = c /\ p.data # "" /\ (IF p.relay # "" THEN p.relay ELSE p.dst) \in r.cl),
+\cup If(okR /\ ~(p.src = c /\ p.data # EmptyData /\ (IF p.relay # "" THEN p.relay ELSE p.dst) \in r.cl),
         Lbl("C09", "invalid_send_accepted", ""))
 \cup If(~okR /\ ~Unchanged(rec, st2), Lbl("C09", "failed_send_changed_state", ""))
 
@@ -170,8 +171,13 @@ V_C19(e, okR, c, r, r2, rec, st2) ==
 \cup If(\E x \in Chains \ {c} : st2[x] # cs[x] \/ rec.dig[x] # dig[x] \/ rec.app[x] # app[x],
         Lbl("C19", "step_changed_another_chain", e.act))
 
+\* C16: a chain re-created from its exported genesis has the same state, key by key (the harness lists the classes of
+\* keys whose presence or value differs between the original and the re-imported stores)
+V_C16(e, rec) == IF e.act = "ExportImport" THEN {Lbl("C16", "state_differs_after_export_import", d) : d \in SetOf(rec.diff)} ELSE {}
+
 Violations(e, okR, rec, st2, pred) ==
   LET c == e.c  r == cs[c]  r2 == st2[c] IN
+  V_C16(e, rec) \cup
   V_C01(e, okR, c, r, r2, rec, st2) \cup V_C02(e, okR, c, r, r2, rec, st2, pred) \cup V_C03(e, okR, c, r, r2, rec, st2, pred)
   \cup V_C09(e, okR, c, r, r2, rec, st2) \cup V_C10(e, okR, c, r, r2, rec, st2) \cup V_C11(e, okR, c, r, r2, rec, st2)
   \cup V_C13(e, okR, c, r, r2, rec, st2) \cup V_C14(e, okR, c, r, r2, rec, st2) \cup V_C19(e, okR, c, r, r2, rec, st2)
